@@ -22,6 +22,10 @@ overwritten before they are read).
    complete run ending in `sA` in front.
 4. `concat_sections_er` combines them with `runFrom_append`.
 5. `counter_idle`: outside plain diffs the `--- ` counter is never armed (reachable states).
+6. `commit_block_er`: a commit line followed by plain lines (`git log -p`) closes the section before it
+   as the end of input does (`step_commit`, `runFrom_plain`, `finish_inCommit`; explicit row bookkeeping
+   with `outN`, no normal-form argument: the per-file fields of the old section stay in the machine
+   until the next `diff ` line resets them).
 
 Proof idiom. Every model function `f` gets a lemma `N (f m) = via f (N m)`, where `via f k = N (f k)`
 is kept folded so that `simp only` can push `N` inwards through a composition and terminates;
@@ -2381,5 +2385,229 @@ theorem counter_idle {cfg : Cfg} : ∀ (ls : List L) {m m' : M}, runFrom cfg m l
     split at e
     · cases e
     · rename_i m1 e1; exact counter_idle ls e (counterIdle_step e1 h)
+
+-- ================================================================ a commit block between sections (`git log -p`)
+
+/-- the line opens none of the constructs delta renders, the commit regex aside -/
+structure Plain (l : L) : Prop where
+  diff : startsWith l.text Markers.diffLine = false
+  hunkHeader : startsWith l.text Markers.hunkHeader = false
+  oldMode : startsWith l.text Markers.oldMode = false
+  newMode : startsWith l.text Markers.newMode = false
+  onlyIn : startsWith l.text Markers.onlyIn = false
+  binary : startsWith l.text Markers.binaryFiles = false
+  submodule : startsWith l.text Markers.submoduleLog = false
+  blame : l.blame = false
+  grep : l.grep = 0
+
+instance (l : L) : Decidable (Plain l) :=
+  decidable_of_iff (startsWith l.text Markers.diffLine = false ∧ startsWith l.text Markers.hunkHeader = false ∧
+      startsWith l.text Markers.oldMode = false ∧ startsWith l.text Markers.newMode = false ∧
+      startsWith l.text Markers.onlyIn = false ∧ startsWith l.text Markers.binaryFiles = false ∧
+      startsWith l.text Markers.submoduleLog = false ∧ l.blame = false ∧ l.grep = 0)
+    ⟨fun ⟨a, b, c, d, e, f, g, h, i⟩ => ⟨a, b, c, d, e, f, g, h, i⟩,
+     fun h => ⟨h.diff, h.hunkHeader, h.oldMode, h.newMode, h.onlyIn, h.binary, h.submodule, h.blame, h.grep⟩⟩
+
+/-- the handlers after `handle_commit_meta_header_line` pass a plain line through, in the states met
+in a commit block of `git` output -/
+theorem chain_plain (cfg : Cfg) (m0 m : M) (l : L) (e1 : handleCommitMeta cfg m0 l = .ok (false, m))
+    (hst : m.st = .unknown ∨ m.st = .commitMeta) (hsrc : m.source ≠ .diffUnified) (no : Plain l) :
+    chain cfg l Generated.handlerOrder m0 = .ok (emitLineUnchanged (emit (emit (emit m))) l) := by
+  have hnd : isDiffHeader m.st = false := by rcases hst with h | h <;> simp [h, isDiffHeader]
+  have hnm : isMergeConflict m.st = false := by rcases hst with h | h <;> simp [h, isMergeConflict]
+  have hnh : isHunkState m.st = false := by rcases hst with h | h <;> simp [h, isHunkState]
+  have hnc : hunkCombinedParents m.st = none := by rcases hst with h | h <;> simp [h, hunkCombinedParents]
+  have hlt : headerLineTest m = false := by simp [headerLineTest, hnd, hsrc]
+  have e3 := handleDiffHeaderDiff_not_mine cfg m l no.diff
+  have e4 := handleFileOperation_not_mine cfg m l (by simp [hlt])
+  have e5 := handleMinusLine_not_mine cfg m l (by simp [minusLineTest, hlt])
+  have e6 := handlePlusLine_not_mine cfg m l (by simp [plusLineTest, hlt])
+  have e7 := handleHunkHeader_not_mine cfg m l no.hunkHeader
+  have e8 := handleModeLine_not_mine cfg m l no.oldMode no.newMode
+  have e9 := handleMisc_not_mine cfg m l no.onlyIn no.binary
+  have e10 := handleSubmoduleLog_not_mine cfg m l no.submodule
+  have e11 : handleSubmoduleShort cfg m l = .ok (false, m) := by
+    unfold handleSubmoduleShort submoduleShortTest
+    rcases hst with h | h <;> simp [h, isHunkHeader]
+  have e12 := handleMergeConflict_not_mine cfg m l hnc hnm
+  have e13 : handleHunkLine cfg m l = .ok (false, m) := by unfold handleHunkLine; simp [hnh]
+  have e15 : handleBlame cfg (emit m) l = .ok (false, emit (emit m)) := by
+    unfold handleBlame; simp [no.blame]
+  have e16 : handleGrep cfg (emit (emit m)) l = .ok (false, emit (emit (emit m))) := by
+    unfold handleGrep; simp [no.grep]
+  have e17 : handleShouldSkip cfg (emit (emit (emit m))) l = .ok (false, emit (emit (emit m))) := by
+    unfold handleShouldSkip shouldSkipLine; simp [hnd]
+  simp only [Generated.handlerOrder, chain, handlerOf, e1, handleDiffStat, e3, e4, e5, e6, e7, e8, e9, e10, e11,
+    e12, e13, handleGitShowFile, e15, e16, e17, handleEmitUnchanged]
+
+/-- the rows written so far, held-back buffer included, ghosts erased -/
+def outN (m : M) : List Row := (m.out ++ m.buf).map Row.er
+
+theorem outN_eq (m : M) : outN m = (N m).out := rfl
+
+/-- a machine inside a commit block of git output: nothing held in the line buffers -/
+structure InCommit (m : M) : Prop where
+  st : m.st = .commitMeta
+  source : m.source = .gitDiff
+  minus : m.minus = []
+  plus : m.plus = []
+
+theorem outN_emitLineUnchanged (m : M) (l : L) (hm : m.minus = []) (hp : m.plus = []) :
+    outN (emitLineUnchanged (emit (emit (emit m))) l) = outN m ++ [{ kind := .raw, text := l.raw, src := 0 }] := by
+  simp [outN, emitLineUnchanged, flushMP, hm, hp, emit, direct]
+
+theorem inCommit_emitLineUnchanged (m : M) (l : L) (h : InCommit m) :
+    InCommit (emitLineUnchanged (emit (emit (emit m))) l) :=
+  ⟨by simp [h.st], by simp [h.source], by simp [emitLineUnchanged], by simp [emitLineUnchanged]⟩
+
+/-- a plain line inside a commit block: passed through, one raw row -/
+theorem step_plain (cfg : Cfg) (m : M) (l : L) (h : InCommit m) (hc : l.commitRe = false) (no : Plain l) :
+    ∃ m', step cfg m l = .ok m' ∧ InCommit m' ∧ outN m' = outN m ++ [{ kind := .raw, text := l.raw, src := 0 }] := by
+  have hi : stepInit m l = m := by unfold stepInit; simp [h.source]
+  refine ⟨bump (emitLineUnchanged (emit (emit (emit m))) l), ?_, ?_, ?_⟩
+  · unfold step
+    rw [hi, chain_plain cfg m m l (handleCommitMeta_not_mine cfg m l hc) (Or.inr h.st) (by rw [h.source]; decide) no]
+    rfl
+  · have := inCommit_emitLineUnchanged m l h
+    exact ⟨this.st, this.source, this.minus, this.plus⟩
+  · exact outN_emitLineUnchanged m l h.minus h.plus
+
+theorem runFrom_plain (cfg : Cfg) : ∀ (C : List L) (m : M), InCommit m →
+    (∀ l ∈ C, l.commitRe = false ∧ Plain l) →
+    ∃ m', runFrom cfg m C = .ok m' ∧ InCommit m' ∧
+      outN m' = outN m ++ C.map (fun l => { kind := .raw, text := l.raw, src := 0 })
+  | [], m, h, _ => ⟨m, rfl, h, by simp⟩
+  | l :: C, m, h, hC => by
+    obtain ⟨m1, e1, h1, o1⟩ := step_plain cfg m l h (hC l (by simp)).1 (hC l (by simp)).2
+    obtain ⟨m2, e2, h2, o2⟩ := runFrom_plain cfg C m1 h1 (fun x hx => hC x (by simp [hx]))
+    refine ⟨m2, by simp only [runFrom, e1]; exact e2, h2, ?_⟩
+    rw [o2, o1]; simp
+
+theorem outN_pending_flush (cfg : Cfg) (m : M) : outN (pendingDiffName cfg (flushMP m)) = sectionRows cfg m := by
+  rw [outN_eq, N_pendingDiffName_explicit, N_flushMP_explicit, pendingRows_flushMP]
+  simp [updPending, N, sectionRows]
+
+theorem pendingRows_inCommit (cfg : Cfg) (m : M) (h : InCommit m) : pendingRows cfg m = [] := by
+  unfold pendingRows pendingTest
+  simp [h.st, h.source, isDiffHeader]
+
+/-- the tail of `consume` inside a commit block writes what is held back and nothing else -/
+theorem finish_inCommit (cfg : Cfg) (m f : M) (h : InCommit m) (e : finish cfg m = .ok f) :
+    f.out.map Row.er = outN m := by
+  rw [(finish_rows cfg m f e).1]
+  simp [sectionRows, outN, h.minus, h.plus, pendingRows_inCommit cfg m h]
+
+/-- what the commit line itself contributes -/
+def commitRows (cfg : Cfg) (c : L) : List Row :=
+  if shouldHandleSt cfg .commitMeta then
+    (if cfg.commitStyle.isOmitted ∧ ¬ cfg.colorOnly then [] else drawRows cfg.commitStyle .commit c.text c.raw [] 0)
+  else [{ kind := .raw, text := c.raw, src := 0 }]
+
+/-- the machine `handle_commit_meta_header_line` builds before it decides to claim the line -/
+def atCommit (cfg : Cfg) (m : M) (c : L) : M :=
+  { pendingDiffName cfg (flushMP (stepInit m c)) with st := .commitMeta }
+
+theorem inCommit_atCommit (cfg : Cfg) (m : M) (c : L) (hs : (stepInit m c).source = .gitDiff) :
+    InCommit (atCommit cfg m c) := by
+  have hq := pendingDiffName_quiet cfg (m := flushMP (stepInit m c)) (by simp) (by simp)
+  exact ⟨rfl, by simp [atCommit, hs], hq.1, hq.2⟩
+
+theorem outN_atCommit (cfg : Cfg) (m : M) (c : L) : outN (atCommit cfg m c) = sectionRows cfg (stepInit m c) := by
+  rw [← outN_pending_flush]; rfl
+
+/-- a commit line: the previous section is closed exactly as at end of input, then the line is
+rendered (or passed through, with the default raw commit style) -/
+theorem step_commit (cfg : Cfg) (m : M) (c : L) (hc : c.commitRe = true) (no : Plain c)
+    (hs : (stepInit m c).source = .gitDiff) :
+    ∃ m', step cfg m c = .ok m' ∧ InCommit m' ∧ outN m' = sectionRows cfg (stepInit m c) ++ commitRows cfg c := by
+  have hin := inCommit_atCommit cfg m c hs
+  have hout := outN_atCommit cfg m c
+  unfold commitRows
+  by_cases hh : shouldHandleSt cfg .commitMeta = true
+  · by_cases ho : cfg.commitStyle.isOmitted ∧ ¬ cfg.colorOnly
+    · have e : handleCommitMeta cfg (stepInit m c) c = .ok (true, emit (atCommit cfg m c)) := by
+        unfold handleCommitMeta atCommit
+        simp only [hc, Bool.not_true, Bool.false_eq_true, if_false, shouldHandle_eq]
+        rw [if_pos hh, if_pos ho]
+      refine ⟨bump (emit (atCommit cfg m c)), ?_, ⟨hin.st, hin.source, hin.minus, hin.plus⟩, ?_⟩
+      · unfold step
+        simp only [Generated.handlerOrder, chain, handlerOf, e]; rfl
+      · rw [if_pos hh, if_pos ho, List.append_nil, ← hout]; simp [outN, bump, emit]
+    · have e : handleCommitMeta cfg (stepInit m c) c =
+          .ok (true, direct (emit (atCommit cfg m c)) (drawRows cfg.commitStyle .commit c.text c.raw [] (stepInit m c).n)) := by
+        unfold handleCommitMeta atCommit
+        simp only [hc, Bool.not_true, Bool.false_eq_true, if_false, shouldHandle_eq]
+        rw [if_pos hh, if_neg ho]
+      refine ⟨bump (direct (emit (atCommit cfg m c)) (drawRows cfg.commitStyle .commit c.text c.raw [] (stepInit m c).n)),
+        ?_, ⟨by simp [bump, hin.st], by simp [bump, hin.source], by simp [bump, hin.minus], by simp [bump, hin.plus]⟩, ?_⟩
+      · unfold step
+        simp only [Generated.handlerOrder, chain, handlerOf, e]; rfl
+      · rw [if_pos hh, if_neg ho, ← hout]; simp [outN, bump, emit]
+  · have e : handleCommitMeta cfg (stepInit m c) c = .ok (false, atCommit cfg m c) := by
+      unfold handleCommitMeta atCommit
+      simp only [hc, Bool.not_true, Bool.false_eq_true, if_false, shouldHandle_eq]
+      rw [if_neg hh]
+    refine ⟨bump (emitLineUnchanged (emit (emit (emit (atCommit cfg m c)))) c), ?_, ?_, ?_⟩
+    · unfold step
+      rw [chain_plain cfg _ _ c e (Or.inr hin.st) (by rw [hin.source]; decide) no]; rfl
+    · have := inCommit_emitLineUnchanged _ c hin
+      exact ⟨this.st, this.source, this.minus, this.plus⟩
+    · rw [if_neg hh, ← hout]
+      exact outN_emitLineUnchanged _ c hin.minus hin.plus
+
+theorem pendingRows_stepInit (cfg : Cfg) (m : M) (l : L) (h1 : m.source ≠ .diffUnified)
+    (h2 : (stepInit m l).source ≠ .diffUnified) : pendingRows cfg (stepInit m l) = pendingRows cfg m := by
+  unfold pendingRows genericRows pendingTest
+  simp only [shouldHandle_eq]
+  simp [h1, h2]
+
+theorem sectionRows_stepInit (cfg : Cfg) (m : M) (l : L) (h1 : m.source ≠ .diffUnified)
+    (h2 : (stepInit m l).source ≠ .diffUnified) : sectionRows cfg (stepInit m l) = sectionRows cfg m := by
+  unfold sectionRows
+  rw [pendingRows_stepInit cfg m l h1 h2]
+  simp
+
+theorem sectionRows_init (cfg : Cfg) : sectionRows cfg {} = [] := by
+  simp [sectionRows, pendingRows, pendingTest, isDiffHeader]
+
+/-- **A commit block closes a section like the end of input.** `A`, then a commit line `c` (git
+output), then plain lines `C` (author, date, message): the rows written are those of `A` alone followed
+by those of `c :: C` alone. -/
+theorem commit_block_er (cfg : Cfg) (A : List L) (c : L) (C : List L) (sA : M)
+    (hA : runFrom cfg {} A = .ok sA)
+    (hc : c.commitRe = true) (no : Plain c) (hgit : detectSource c.text = .gitDiff)
+    (hsrc : sourceOk sA c) (hC : ∀ l ∈ C, l.commitRe = false ∧ Plain l) :
+    ∃ m a b, run cfg (A ++ c :: C) = .ok m ∧ run cfg A = .ok a ∧ run cfg (c :: C) = .ok b ∧
+      m.out.map Row.er = a.out.map Row.er ++ b.out.map Row.er := by
+  have hs1 : (stepInit sA c).source = .gitDiff := by
+    rw [stepInit_source]; unfold sourceOk at hsrc
+    rcases hsrc with h | h
+    · simp [h, hgit]
+    · rw [h, hgit]; simp
+  have hs0 : (stepInit {} c).source = .gitDiff := by rw [stepInit_source]; simp [hgit]
+  have hsA : sA.source ≠ .diffUnified := by
+    unfold sourceOk at hsrc
+    rcases hsrc with h | h
+    · rw [h]; decide
+    · rw [h, hgit]; decide
+  -- the run over `A ++ c :: C`
+  obtain ⟨s1, e1, i1, o1⟩ := step_commit cfg sA c hc no hs1
+  obtain ⟨s2, e2, i2, o2⟩ := runFrom_plain cfg C s1 i1 hC
+  obtain ⟨m, em⟩ := finish_total cfg s2
+  -- the run over `c :: C`
+  obtain ⟨t1, f1, j1, p1⟩ := step_commit cfg {} c hc no hs0
+  obtain ⟨t2, f2, j2, p2⟩ := runFrom_plain cfg C t1 j1 hC
+  obtain ⟨b, eb⟩ := finish_total cfg t2
+  -- the run over `A`
+  obtain ⟨a, ea⟩ := finish_total cfg sA
+  have r1 : runFrom cfg {} (A ++ c :: C) = .ok s2 := by
+    rw [runFrom_append, hA]; simp only [runFrom, e1]; exact e2
+  have r2 : runFrom cfg {} (c :: C) = .ok t2 := by simp only [runFrom, f1]; exact f2
+  refine ⟨m, a, b, by unfold run; rw [r1]; exact em, by unfold run; rw [hA]; exact ea,
+    by unfold run; rw [r2]; exact eb, ?_⟩
+  rw [finish_inCommit cfg s2 m i2 em, finish_inCommit cfg t2 b j2 eb, (finish_rows cfg sA a ea).1, o2, o1, p2, p1,
+    sectionRows_stepInit cfg sA c hsA (by rw [hs1]; decide),
+    sectionRows_stepInit cfg {} c (by decide) (by rw [hs0]; decide), sectionRows_init]
+  simp
 
 end Machine
